@@ -51,9 +51,8 @@ pub fn c13(h: &mut H) {
                 h.expect(false, "C13.to_bytes", "signature to_bytes panicked", &[h.last()]);
             }
             let typed: CL03Signature = serde_json::from_value(sig.clone()).unwrap();
-            let js = serde_json::to_string(&typed).unwrap();
-            let back: CL03Signature = serde_json::from_str(&js).unwrap();
-            h.expect(back == typed, "C13.json_roundtrip", "signature does not survive its JSON encoding", &[sid]);
+            let back: Option<CL03Signature> = serde_json::to_string(&typed).ok().and_then(|t| serde_json::from_str(&t).ok());
+            h.expect(back.as_ref() == Some(&typed), "C13.json_roundtrip", "signature does not survive its JSON encoding", &[sid]);
             // selective disclosure for all subsets (n <= 3) or a sample
             let subs: Vec<Vec<usize>> = if n <= 3 { subsets(n) } else { vec![vec![], vec![0], vec![n - 1], (0..n).collect(), vec![1, 3]] };
             for u in subs {
@@ -199,7 +198,7 @@ pub fn c18(h: &mut H) {
         let (ck, _) = cpk(h, Some(&k.n_mod), nb);
         let cid = h.last();
         let hh = field(&ck, "h");
-        let gs: Vec<Integer> = ck["g_bases"].as_array().unwrap().iter().map(int_of).collect();
+        let gs: Vec<Integer> = gbases(&ck);
         let mut ce: Vec<(String, Integer)> = vec![("h".into(), hh.clone())];
         for (i, g) in gs.iter().enumerate() {
             ce.push((format!("g_{}", i), g.clone()));
@@ -226,8 +225,8 @@ pub fn c18(h: &mut H) {
             match factors_from_tape(&n2, &tape) {
                 Some((p2, q2)) => {
                     let mut ce2: Vec<(String, Integer)> = vec![("h".into(), field(&ck2, "h"))];
-                    for (i, g) in ck2["g_bases"].as_array().unwrap().iter().enumerate() {
-                        ce2.push((format!("g_{}", i), int_of(g)));
+                    for (i, g) in gbases(&ck2).iter().enumerate() {
+                        ce2.push((format!("g_{}", i), g.clone()));
                     }
                     check_group(h, "commitment key (own modulus)", &n2, &p2, &q2, &ce2, p.secparam, cid2);
                 }
@@ -251,13 +250,13 @@ pub fn c18(h: &mut H) {
         } else {
             h.expect(false, "C18.sk_to_bytes", "secret key to_bytes panicked", &[h.last()]);
         }
-        let back: CL03PublicKey = serde_json::from_str(&serde_json::to_string(&pk_t).unwrap()).unwrap();
-        h.expect(back == pk_t, "C18.pk_json", "public key does not survive JSON", &[kid]);
-        let back: CL03SecretKey = serde_json::from_str(&serde_json::to_string(&sk_t).unwrap()).unwrap();
-        h.expect(back == sk_t, "C18.sk_json", "secret key does not survive JSON", &[kid]);
-        let ck_t: CL03CommitmentPublicKey = serde_json::from_value(ck.clone()).unwrap();
-        let back: CL03CommitmentPublicKey = serde_json::from_str(&serde_json::to_string(&ck_t).unwrap()).unwrap();
-        h.expect(back == ck_t, "C18.cpk_json", "commitment key does not survive JSON", &[cid]);
+        let back: Option<CL03PublicKey> = serde_json::to_string(&pk_t).ok().and_then(|t| serde_json::from_str(&t).ok());
+        h.expect(back.as_ref() == Some(&pk_t), "C18.pk_json", "public key does not survive JSON", &[kid]);
+        let back: Option<CL03SecretKey> = serde_json::to_string(&sk_t).ok().and_then(|t| serde_json::from_str(&t).ok());
+        h.expect(back.as_ref() == Some(&sk_t), "C18.sk_json", "secret key does not survive JSON", &[kid]);
+        let ck_t: Option<CL03CommitmentPublicKey> = serde_json::from_value(ck.clone()).ok();
+        let back: Option<CL03CommitmentPublicKey> = ck_t.as_ref().and_then(|t| serde_json::to_string(t).ok()).and_then(|t| serde_json::from_str(&t).ok());
+        h.expect(ck_t.is_some() && back == ck_t, "C18.cpk_json", "commitment key does not survive JSON", &[cid]);
         // a signature under this key survives its encodings
         let msgs = attrs(h, nb);
         if let Some(sig) = signm(h, &k, &k.bases.clone(), &msgs) {
@@ -286,14 +285,15 @@ pub fn c18(h: &mut H) {
             let (o, _) = call(h, "cl.cpk", vec![iv(&k.n_mod), nn.clone()], vec![]);
             let id = h.last();
             if let Some(v) = o.ok() {
-                let gs: Vec<Integer> = v["g_bases"].as_array().unwrap().iter().map(int_of).collect();
+                let gs: Vec<Integer> = gbases(v);
+                h.expect(v.get("g_bases").map(|x| x.is_array()).unwrap_or(false), "C18.cpk_json_field", "serialized commitment key has no g_bases field", &[id]);
                 h.expect(gs.len() == want, "C18.cpk_count_sizes", &format!("commitment key for n_attributes = {} has {} bases", nn, gs.len()), &[id]);
                 let mut el: Vec<(String, Integer)> = vec![("h".into(), field(v, "h"))];
                 el.extend(gs.iter().enumerate().map(|(i, g)| (format!("g_{}", i), g.clone())));
                 check_group(h, "commitment key sizes", &k.n_mod, &k.p, &k.q, &el, p.secparam, id);
-                let typed: CL03CommitmentPublicKey = serde_json::from_value(v.clone()).unwrap();
-                let back: CL03CommitmentPublicKey = serde_json::from_str(&serde_json::to_string(&typed).unwrap()).unwrap();
-                h.expect(back == typed, "C18.cpk_json_sizes", "commitment key does not survive JSON", &[id]);
+                let typed: Option<CL03CommitmentPublicKey> = serde_json::from_value(v.clone()).ok();
+                let back: Option<CL03CommitmentPublicKey> = typed.as_ref().and_then(|t| serde_json::to_string(t).ok()).and_then(|t| serde_json::from_str(&t).ok());
+                h.expect(typed.is_some() && back == typed, "C18.cpk_json_sizes", &format!("commitment key with {} bases does not survive its JSON encoding", want), &[id]);
             } else {
                 h.expect(false, "C18.cpk_sizes_panic", "CL03CommitmentPublicKey::generate panicked", &[id]);
             }
@@ -333,7 +333,7 @@ pub fn c18(h: &mut H) {
             if let Some(v) = o.ok() {
                 let hh = field(v, "h");
                 h.expect(hh > 1 && hh.clone().gcd(&k.n_mod) == 1, "C18.boundary_h", "commitment key h is 0, 1 or a non-unit for a boundary draw", &[id]);
-                for g in v["g_bases"].as_array().unwrap().iter().map(int_of) {
+                for g in gbases(v) {
                     h.expect(g > 1 && g.clone().gcd(&k.n_mod) == 1, "C18.boundary_g", "commitment key base is 1 or a non-unit for a boundary exponent draw", &[id]);
                 }
             }
